@@ -610,7 +610,11 @@ func (ds *AnySource) HandleExternalTriggers(externalTriggerRowcounts []int64) er
 			return fmt.Errorf("cannot write header to externalTriggerFileBufferedWriter, err %v", err)
 		}
 	}
+	// The counter is one of the fields that ComputeState copies for requests served outside this loop
+	// (ReadComment, WriteComment), so it is changed under the state's lock like the others.
+	ds.writingState.Lock()
 	ds.writingState.externalTriggerNumberObserved += len(externalTriggerRowcounts)
+	ds.writingState.Unlock()
 	if ds.writingState.externalTriggerFileBufferedWriter != nil && len(externalTriggerRowcounts) > 0 {
 		_, err := ds.writingState.externalTriggerFileBufferedWriter.Write(getbytes.FromSliceInt64(externalTriggerRowcounts))
 		if err != nil {
@@ -629,7 +633,9 @@ func (ds *AnySource) HandleExternalTriggers(externalTriggerRowcounts []int64) er
 			state: struct {
 				NumberObservedInLastSecond int
 			}{NumberObservedInLastSecond: ds.writingState.externalTriggerNumberObserved}} // only exported fields are serialized
+		ds.writingState.Lock()
 		ds.writingState.externalTriggerNumberObserved = 0
+		ds.writingState.Unlock()
 	default:
 	}
 
